@@ -134,9 +134,28 @@ func errorWrappers(ef *file) map[string]string {
 	return out
 }
 
+// dispatchChans names the channels on which fd hands a job over to the worker pool: the scheduler's field
+// sched.dispatch, and any parameter of fd of type chan ScheduledJob (the per-run channel).
+func dispatchChans(fd *ast.FuncDecl) map[string]bool {
+	out := map[string]bool{"sched.dispatch": true}
+	if fd.Type.Params != nil {
+		for _, p := range fd.Type.Params.List {
+			ct, ok := p.Type.(*ast.ChanType)
+			if !ok || ct.Dir == ast.RECV || callName(ct.Value) != "ScheduledJob" {
+				continue
+			}
+			for _, n := range p.Names {
+				out[n.Name] = true
+			}
+		}
+	}
+	return out
+}
+
 // skeleton lists, in source order, the calls of interest and the assignments to opts.Suspended.
 func skeleton(f *file, fd *ast.FuncDecl) []string {
 	var out []string
+	chans := dispatchChans(fd)
 	var walk func(n ast.Node, deferred bool)
 	item := func(c *ast.CallExpr, deferred bool) (string, bool) {
 		name := callName(c.Fun)
@@ -180,7 +199,7 @@ func skeleton(f *file, fd *ast.FuncDecl) []string {
 					out = append(out, "Suspended="+exprStr(f.fset, x.Rhs[0]))
 				}
 			case *ast.SendStmt:
-				if callName(x.Chan) == "sched.dispatch" {
+				if chans[callName(x.Chan)] {
 					out = append(out, "dispatch<-")
 				}
 			}
@@ -750,6 +769,7 @@ func genSchedFetch(o *out) {
 	}
 	// executeAndReschedule: every dispatch site inside `if valid { ... }`
 	sites, guarded := 0, 0
+	erChans := dispatchChans(er)
 	countSites := func(n ast.Node) int {
 		k := 0
 		ast.Inspect(n, func(m ast.Node) bool {
@@ -762,7 +782,7 @@ func genSchedFetch(o *out) {
 					k++
 				}
 			case *ast.SendStmt:
-				if callName(x.Chan) == "sched.dispatch" {
+				if erChans[callName(x.Chan)] {
 					if callName(x.Value) != "scheduled" {
 						die("executeAndReschedule: dispatches something other than scheduled")
 					}
